@@ -221,6 +221,9 @@ def run(ctx, P):
     r2.sweeps_drop_empty_entries(ctx, P, "C04g")
     r2.events_are_lossless(ctx, P, "C04h")
     r2.changed_instance_is_the_ptr_target(ctx, P, "C04i")
+    from . import r4
+    r4.followup_guard_goes_through_ptr(ctx, P, "C04j")
+    r4.resolved_event_per_listing(ctx, P, "C04k")
     clause_e(ctx, P)
     clause_a(ctx, P)
     clause_b(ctx, P)
